@@ -405,6 +405,17 @@ def run(ctx):
                         check_one(ctx, s, False, "kernel")
                     if i % 100003 == 0:
                         ctx.sample({"s": s, "modes": ["encoded", "auto"]})
+        # the SCHEME boundary: every ASCII character (and a few wider ones) at the start, inside and at the end of a scheme-like
+        # prefix, in front of each kind of remainder - is the prefix a scheme (RFC: ALPHA *( ALPHA / DIGIT / "+" / "-" / "." )) or path?
+        if ctx.shard == 0:
+            for c in [chr(o) for o in range(128)] + ["\x80", "\xaa", "é", "ı", "K", "１"]:
+                for prefix in (f"a{c}b", f"{c}ab", f"ab{c}", f"A{c}b", c, f"x{c}y{c}"):
+                    for rest in (":c", "://Host/a/./b", "://host?q", ":/p", ":", ":%41"):
+                        s_ = prefix + rest
+                        check_one(ctx, s_, True, "kernel-scheme")
+                        check_one(ctx, s_, False, "kernel-scheme")
+                        i += 1
+            ctx.count("scheme_boundary_cases")
         ctx.notes["kernel_total"] = i
         return
     if ctx.part == "long":
